@@ -54,6 +54,8 @@ mod repeats;
 mod shadow;
 #[path = "c08/strings.rs"]
 mod strings;
+#[path = "c08/wrongkind.rs"]
+mod wrongkind;
 use common::*;
 
 const RULE: &str = "a case is non-trivial if it is not a verbatim valid document: a mutated / random / hostile text, a document that reaches a later stage (check, printers), a rendered diagnostic, a config text or a loader call sequence (distinct by text)";
@@ -1215,6 +1217,24 @@ fn main() {
         }
         return;
     }
+    if args.extra.get("list-wrongkind").is_some() {
+        // diagnostic mode: only the wrong-kind family; outcome per position:kind (the legal kinds must generate)
+        let mut by: std::collections::BTreeMap<String, std::collections::BTreeMap<String, u64>> = Default::default();
+        for c in &wrongkind::wrong_kind_cases() {
+            let mut one = Report::new("C08", RULE);
+            stress_stream(&mut one, &[c.clone()]);
+            for (k, v) in one.dist.iter().filter(|(k, _)| k.starts_with("project-outcome:")) {
+                *by.entry(c["class"].as_str().unwrap_or("").to_string()).or_default().entry(k.trim_start_matches("project-outcome:").to_string()).or_default() += *v;
+            }
+            for f in one.failures {
+                println!("{}\t{}\t{}\t{}", f.signature, f.what, c["schema"].as_str().unwrap_or("").replace('\n', " / "), c["files"][0][1].as_str().unwrap_or("").replace('\n', " / "));
+            }
+        }
+        for (k, v) in by {
+            println!("{k}\t{v:?}");
+        }
+        return;
+    }
     if args.extra.get("list-cli").is_some() {
         // diagnostic mode: the deterministic CLI rows with their verdicts
         let mut rng = Rng::new(args.seed);
@@ -1268,6 +1288,13 @@ fn main() {
     ] {
         ctx.pipeline(project::SCHEMA, &[op.to_string()], "corpus");
     }
+    // a type of the wrong kind in a position of the schema / of the operation × documents that reach the position
+    // (exhaustive small product; every stage incl. the schema / resolver / operation type printers, under the watchdog)
+    let wk = wrongkind::wrong_kind_cases();
+    ctx.rep.extra.insert("wrong_kind_cases".into(), json!(wk.len()));
+    let t_wk = std::time::Instant::now();
+    stress_stream(ctx.rep, &wk);
+    ctx.rep.extra.insert("wrong_kind_ms".into(), json!(t_wk.elapsed().as_millis() as u64));
     let n_schemas = if search { 600 } else { args.budget(260, 1500) };
     let mut parse_batch: Vec<(&'static str, String, String)> = vec![];
     for i in 0..n_schemas {
